@@ -38,6 +38,27 @@ CHECKS = {
         "note": NOTE_COMMON + " Floats are modelled by exact rationals; generators use dyadic values so both coincide. bloqade.geometry.Grid is modelled (GridQ), not verified.",
         "technique": "Coq proofs over a parametric model + vm_compute correspondence over an exact-rational grid model",
     },
+    "C13": {
+        "text": "Theorems about a model of arch.py: Layout equality over the field list it reads is an equivalence, distinguishes any differing "
+                "field it reads, and equal layouts agree on every hashed field when hash reads only eq fields (both field lists are reflected "
+                "behaviourally from the live code each run and the inclusion / completeness lemmas re-proved); ArchSpec equality is an equivalence; "
+                "the constructor accepts exactly the layouts in which no two names share a grid; for an accepted layout every table grid is found "
+                "under a name that maps back to it; the bounding box contains every site and each side is attained (non-negative spacings). "
+                "Correspondence: all pairs of ~70/400 layouts with every field varied independently, constructor acceptance, get_zone_id of every "
+                "pool grid, bounding_box; all pairs/triples for the laws on the implementation; every layout returned by the library builders.",
+        "note": NOTE_COMMON + " Known finding recorded: gemini.logical.get_spec extends tables after construction (stale index, duplicate names).",
+        "technique": "Coq proofs (equivalence, index invariant, min/max folds over Q) + reflected field tables + vm_compute correspondence",
+    },
+    "C14": {
+        "text": "Theorems for ALL num_x, num_y >= 1 and ALL spacings (exact rationals): single zone has nx x ny sites at i*s, j*s; deprecated builder "
+                "= replacement; two-column zone: left/right are the even/odd-column views with the same rows, pair i at i*(gate+spacing) and "
+                "+gate, and the zone's columns are exactly their interleaving; capability sets name zones. Gemini base/logical are closed terms: "
+                "documented block table (16 views), 7x5 block sizes, zone coordinates and constants decided by vm_compute. Builder models are "
+                "compared zone by zone (spacings, inits, parent and index lists of views, capabilities, constants) with the specs the library "
+                "returns for all sizes up to 4/7 and 5x3 spacings.",
+        "note": NOTE_COMMON + " IEEE-754 rounding is not modelled (dyadic parameters in the correspondence).",
+        "technique": "Coq proofs over exact rationals (prefix sums, views with ascending indices) + vm_compute on closed Gemini terms + correspondence",
+    },
     "C15": {
         "text": "A heap model makes Python aliasing explicit (mutable waypoint cells, reference lists, shallow copy, dirty state after failures). "
                 "Theorems over ALL histories from ANY starting state: each result, observed at any later time, equals the fresh-instance result; "
